@@ -340,6 +340,7 @@ func generateProxyEnv(node *Node, query parser.Query) map[string]interface{} {
 	assertStmt := "AssertStmt"
 	returnStmt := "ReturnStmt"
 	blockStmt := "BlockStmt"
+	blockComment := "block_comment"
 
 	// print query select list
 	for _, entity := range query.SelectList {
@@ -362,29 +363,29 @@ func generateProxyEnv(node *Node, query parser.Query) map[string]interface{} {
 			mulExpression = entity.Alias
 		case "div_expression":
 			divExpression = entity.Alias
-		case "comparison_expression":
+		case "comparison_expression", "comp_expression":
 			comparisionExpression = entity.Alias
-		case "remainder_expression":
+		case "remainder_expression", "rem_expression":
 			remainderExpression = entity.Alias
 		case "right_shift_expression":
 			rightShiftExpression = entity.Alias
 		case "left_shift_expression":
 			leftShiftExpression = entity.Alias
-		case "not_equal_expression":
+		case "not_equal_expression", "ne_expression":
 			notEqualExpression = entity.Alias
-		case "equal_expression":
+		case "equal_expression", "eq_expression":
 			equalExpression = entity.Alias
-		case "and_bitwise_expression":
+		case "and_bitwise_expression", "bitwise_and_expression":
 			andBitwiseExpression = entity.Alias
-		case "and_logical_expression":
+		case "and_logical_expression", "and_expression":
 			andLogicalExpression = entity.Alias
-		case "or_logical_expression":
+		case "or_logical_expression", "or_expression":
 			orLogicalExpression = entity.Alias
-		case "or_bitwise_expression":
+		case "or_bitwise_expression", "bitwise_or_expression":
 			orBitwiseExpression = entity.Alias
-		case "unsigned_right_shift_expression":
+		case "unsigned_right_shift_expression", "bitwise_right_shift_expression":
 			unsignedRightShiftExpression = entity.Alias
-		case "xor_bitwise_expression":
+		case "xor_bitwise_expression", "bitwise_xor_expression":
 			xorBitwsieExpression = entity.Alias
 		case "ClassInstanceExpr":
 			classInstanceExpression = entity.Alias
@@ -408,6 +409,8 @@ func generateProxyEnv(node *Node, query parser.Query) map[string]interface{} {
 			returnStmt = entity.Alias
 		case "BlockStmt":
 			blockStmt = entity.Alias
+		case "block_comment":
+			blockComment = entity.Alias
 		}
 	}
 	env := map[string]interface{}{
@@ -577,6 +580,10 @@ func generateProxyEnv(node *Node, query parser.Query) map[string]interface{} {
 		blockStmt: map[string]interface{}{
 			"toString":     proxyenv.ToString,
 			"getBlockStmt": proxyenv.GetBlockStmt,
+		},
+		blockComment: map[string]interface{}{
+			"getDoc":   proxyenv.GetDoc,
+			"toString": proxyenv.ToString,
 		},
 	}
 	return env
